@@ -20,11 +20,11 @@ prop('C01', ['K1', 'M1', 'M2', 'M3', 'M7', 'T4'],
      ['identity of leaf objects at every position', 'equality of the re-flattened treespec',
       'any n replacement leaves round-trip'])
 
-prop('C02', ['K5', 'K6', 'K2', 'D2', 'T2', 'M7', 'K4'],
+prop('C02', ['K5', 'K6', 'NS1', 'K2', 'D2', 'T2', 'M7', 'K4'],
      'Leaf order and classification, structural part: the user predicate is consulted before the '
      'registry and a true answer never reaches it (K5, on the CFG of all 5 classification sites); '
      'lookup order namespace map -> global map -> struct sequence -> namedtuple with the exact '
-     'type as key and no subtype test (K6); the NoneIsLeaf / DictShouldBeSorted instantiation '
+     'type as key and no subtype test (K6), asked about the namespace the caller requested at every one of the call sites down the call chain (NS1); the NoneIsLeaf / DictShouldBeSorted instantiation '
      'chosen equals the runtime flag (K2); keys are sorted exactly when kind != OrderedDict and '
      'the caller\'s namespace is in sorted mode (D2); the key sort has the documented three stages '
      'with only TypeError moving on and the input order as last resort (T2); OrderedDict is '
@@ -128,21 +128,21 @@ prop('C11', ['S1', 'S2', 'S3', 'K2'],
      'reads rely on (S3).',
      ['cross-process behaviour', 'protocols', 'post-load equality'])
 
-prop('C12', ['G1', 'G2', 'G3', 'G4', 'G5', 'G6', 'L4', 'K6', 'K6py'],
+prop('C12', ['G1', 'G2', 'G3', 'G4', 'G5', 'G6', 'L4', 'K6', 'K6py', 'NS1'],
      'Registry: validation dominates mutation and nothing fallible follows the first mutation '
      '(G1); no C-API failure result is ignored (G2); the Python mirror is written only after the '
      'engine call, under the lock, with the same key, by exactly two functions (G3); a mutation '
      'addressed to a namespace touches only that namespace\'s map (G6); all six entry '
      'points validate class and namespace first (G4); references are paired (G5); check-then-act '
      'is one exclusive region and Lookup returns by value (L4); lookup order in engine and Python '
-     'twin, and the Python listing lets the namespace entry win (K6, K6py).',
+     'twin, and the Python listing lets the namespace entry win (K6, K6py); the namespace asked for is handed down unchanged to every engine function that takes one (NS1).',
      ['behaviour after arbitrary histories'])
 
-prop('C13', ['D1', 'D2', 'D3', 'K2'],
+prop('C13', ['D1', 'D2', 'D3', 'K2', 'NS1'],
      'Dict-order mode: the context manager saves the namespace\'s own flag in the same locked '
      'block as the switch and restores exactly it in a finally, on every path (D1); all four '
      'traversals consult the mode of the caller\'s namespace with global inheritance and never '
-     'sort OrderedDict (D2, K2); set/query shapes (D3).',
+     'sort OrderedDict (D2, K2); the namespace is handed down unchanged (NS1); set/query shapes (D3).',
      ['restoration over all nestings (follows from D1 by an induction the checker does not make)'])
 
 prop('C14', ['A1', 'A3', 'A5', 'G5', 'M3'],
